@@ -262,6 +262,77 @@ fn libfmt_cmd() -> i32 {
     0
 }
 
+/// `sv mirileg <shard> <nshards> <n>`: a small in-process slice of the C04 / C07 / C02 workloads meant to
+/// be executed under Miri (`cargo +nightly miri run`): the executions the monitors judge are then
+/// also checked for undefined behaviour in the dependency code they reach (regex automata, smol_str).
+/// No file system access, no subprocesses, no big stacks.
+fn mirileg_cmd(args: &[String]) -> i32 {
+    let shard: u64 = args.first().and_then(|x| x.parse().ok()).unwrap_or(0);
+    let nshards: u64 = args.get(1).and_then(|x| x.parse().ok()).unwrap_or(1);
+    let n: u64 = args.get(2).and_then(|x| x.parse().ok()).unwrap_or(4);
+    fmt::install_quiet_panic_hook();
+    let mut ctx = Ctx::new("MIRI", Tier::Quick, 0, None);
+    let mut judged = 0u64;
+    let mut bad = 0u64;
+    // string literals through the escape-rewriting regexes (C04)
+    let bodies = ["a\\nb", "it's", "say \\\"hi\\\"", "\\x41\\065\\u{48}", "\\z  x", "q\\'\\\"", "\\\\", "é\\t", ""];
+    for (k, b) in bodies.iter().enumerate() {
+        if k as u64 % nshards != shard {
+            continue;
+        }
+        for q in ["\"", "'"] {
+            let lit = format!("{q}{b}{q}");
+            if lex::decode_string(&lit).is_none() {
+                continue;
+            }
+            let src = format!("local v = {lit}\nf{lit}\nlocal t = {{ [{lit}] = t[{lit}] }}\n");
+            for qs in cfg::QUOTES {
+                let mut c = cfg::Cfg::with_syntax("Lua52");
+                c.quote_style = qs;
+                if !fmt::parses(&src, &c) {
+                    continue;
+                }
+                props::c04::replay(&mut ctx, &json!({"src": src, "cfg": c.to_json()}));
+                judged += 1;
+            }
+        }
+    }
+    // small generated programs: totality + parse + meaning
+    for i in 0..n {
+        if i % nshards != shard {
+            continue;
+        }
+        let mut r = rng::Rng::derive(7, 0x3141, i);
+        let syntax = *r.pick(&cfg::SYNTAXES);
+        let mut g = gen::Gen::new(&mut r, gen::dialect(syntax));
+        g.max_depth = 1;
+        g.tame = i % 2 == 0;
+        g.block(1, 1, 3);
+        let pieces = g.out;
+        let text = gen::render(&mut r, &pieces, &gen::Style::random(&mut rng::Rng::derive(7, 0x99, i)));
+        let c = cfg::Cfg::random(&mut r, syntax, 20);
+        if !fmt::parses(&text, &c) {
+            continue;
+        }
+        judged += 1;
+        match fmt::run(&text, &c, None, false, false).result {
+            Ok(out) => {
+                if !fmt::parses(&out, &c) || oracles::nf_diff(&text, &out, &c).is_some() {
+                    bad += 1;
+                    println!("MIRILEG-FINDING program {i}: output invalid or meaning changed");
+                }
+            }
+            Err(e) => {
+                bad += 1;
+                println!("MIRILEG-FINDING program {i}: {e:?}");
+            }
+        }
+    }
+    bad += ctx.findings.len() as u64;
+    println!("MIRILEG judged={judged} findings={bad}");
+    if bad == 0 { 0 } else { 1 }
+}
+
 fn gen_cmd(args: &[String]) -> i32 {
     let seed: u64 = args.first().and_then(|x| x.parse().ok()).unwrap_or(0);
     let n: u64 = args.get(1).and_then(|x| x.parse().ok()).unwrap_or(1);
@@ -296,6 +367,7 @@ fn main() {
         Some("gen") => gen_cmd(&args[1..]),
         Some("libfmt") => libfmt_cmd(),
         Some("pos") => pos_cmd(),
+        Some("mirileg") => mirileg_cmd(&args[1..]),
         _ => {
             eprintln!("usage: sv worker|replay|fmt|gen ...");
             3
